@@ -234,7 +234,9 @@ def sv_worker(job: dict) -> dict:
                                 h_alt = dense.hamiltonian(om[s_], de[s_], ph[s_], c_, kind="rydberg", dim=2)
                                 e_alt = _obs_ref(tg, ref, n, h_alt, lind)
                                 # the alternative matrix comes from the raw register coordinates (Pulser rounds them: ~1e-7 relative)
-                                err = min(err, max(0.0, float(np.max(np.abs(got - e_alt))) - 2e-6 * scale))
+                                sc_alt = float(np.abs(h_alt).sum(axis=1).max())
+                                sc_alt = sc_alt if tg == "energy" else sc_alt**2
+                                err = min(err, max(0.0, float(np.max(np.abs(got - e_alt))) - 2e-6 * max(scale, sc_alt)))
                         worst_obs = max(worst_obs, err / ob)
                         if err > ob:
                             obs_ok = False
